@@ -339,8 +339,13 @@ func genLabels(r *h.Rng) labels.Labels {
 	return b.Labels()
 }
 
-func genVec(c *h.Ctx, r *h.Rng, n int) []series {
+// genVec draws n series with pairwise distinct label sets, also distinct from those in avoid
+// (a vector with a duplicate label set is not a valid PromQL vector).
+func genVec(c *h.Ctx, r *h.Rng, n int, avoid []series) []series {
 	seen := map[uint64]bool{}
+	for _, s := range avoid {
+		seen[s.lbls.Hash()] = true
+	}
 	var out []series
 	for len(out) < n {
 		l := genLabels(r)
@@ -408,7 +413,7 @@ func main() {
 			// vec case: one generated vector, several ratios incl. ratios adjacent to a real series offset;
 			// a second vector sharing series (other values, other companions) for the labels-only clause.
 			c.Case(fmt.Sprintf("v%d", i))
-			in := genVec(c, r, 2+r.Intn(14))
+			in := genVec(c, r, 2+r.Intn(14), nil)
 			nq := 2 + r.Intn(3)
 			var key []string
 			for q := 0; q < nq; q++ {
@@ -438,7 +443,7 @@ func main() {
 							cur = append(cur, series{lbls: s.lbls, val: float64(r.Range(-100, 100))})
 						}
 					}
-					cur = append(cur, genVec(c, r, 1)...)
+					cur = append(cur, genVec(c, r, 1, in)...)
 					c.Count("vec:resampled-subvector")
 				}
 				op := vecOp(rr, cur)
